@@ -267,7 +267,9 @@ def cases(tier):
     n = len(T)
     maxlen = 3 if tier == 'quick' else 4
     for L in range(1, maxlen + 1):
-        for seq in itertools.product(range(n), repeat=L):
+        # sequences of 4 tokens (thorough tier) are built from the first 22 tokens; the three tokens added last
+        # (RST argument, LD A,1, JP text) take part in every sequence of <= 3
+        for seq in itertools.product(range(n if L <= 3 else 22), repeat=L):
             yield ('plain', seq)
     # code maps from real execution traces (all sequences of <= 2 tokens, every entry token, every format)
     for L in (1, 2) if tier == 'quick' else (1, 2, 3):
@@ -476,7 +478,7 @@ def run(tier, seed):
              'map formats for sequences <= {}; every subset (256) of an 8-byte window as an arbitrary map on 12 fixed images; every opcode byte after 7 prefixes (none, DD, FD, ED, CB, DDCB d, FDCB d) inside a routine with 2 continuations x (none,-C); 256 promoted-block images (4 callers x 4 fall-through target blocks x 4 x 4 back-to-back routines, the target unexecuted) x 5 map formats x (none,-C); trace maps also with the range starting at the second token; images ending at 65536 (token sequences <= 2, 22 cut-off instructions x 4 leads) x (none,-C,-r,-h). states = distinct token '
              'sets'.format(3 if tier == 'quick' else 4, 2 if tier == 'quick' else 3),
         exhaustive=True,
-        bound='token sequences <= {}'.format(3 if tier == 'quick' else 4),
+        bound='token sequences <= {} (length 4: over the first 22 tokens)'.format(3 if tier == 'quick' else 4),
         assumptions=['the generated control file is fed to sna2skool with default options (sna2ctl -r already writes the RST argument sub-blocks)',
                      'for arbitrary (non-trace) address sets only termination and tiling are required (as the property states); trace maps get every clause, except that a program whose code reachable from the trace (both outcomes of each branch) overlaps itself is not fed to sna2skool (no control file can satisfy both clauses for it)'],
         required_guards=['plain', 'trace', 'subset', 'inline', 'opsweep', 'top', 'promoted', 'fed_to_sna2skool'],
